@@ -10,6 +10,7 @@ import CatiiProofs.Reindexed
 import CatiiProofs.Sliced
 import CatiiProofs.Collapsed
 import CatiiProofs.SetUpdates
+import CatiiProofs.ShiftGenBridge
 import CatiiProofs.ValidateGenBridge
 /-!
 # C07 — every operation preserves index well-formedness
@@ -54,6 +55,12 @@ theorem wellformed_passes_generated_validate (i : IIndex) (h : wf i = true) : Ge
 theorem shift_common_preserves_partial (i : IIndex) (h : WF i) (hnd : i.ndim ≤ 2) (v : Option Int)
     (r : IIndex) (hr : shiftCommon i v = .ok r) : WF r :=
   (shiftCommon_refines i h hnd v r hr).1
+
+/-- the re-encoding block of `shift_common` as REGENERATED from the source on every run (`Gen.shiftToGen`,
+tools/translate_shift.py) keeps a well-formed one- or two-axis index well-formed, for EVERY new common value - -/
+theorem generated_shift_common_keeps_wellformed (i : IIndex) (h : WF i) (hnd : i.ndim ≤ 2) (v : Int) :
+    WF (Gen.shiftToGen i v) :=
+  (shiftCommon_refines i h hnd (some v) _ (gen_shiftTo_eq i v h.arity hnd)).1
 
 /-- `from_array(values, counts, common, mapping)` returns a well-formed index on both construction paths -/
 theorem from_array_wellformed (a : Arr) (o : FromOpts) (idx : IIndex) (w : Bool) (harr : ArrOK a)
